@@ -169,11 +169,31 @@ class Gen:
 TAIL = ['result("x", x)', 'result("y", y)', 'result("b", b)', "return x"]
 
 
+# every FORM of range() as a loop header: one / two / three arguments, ascending / descending, literal / run-time bounds,
+# sequences that land exactly on `stop`, jump over it, or are empty; bodies: every block of size <= 2 (quick) / <= 3
+RANGE_HEADERS = [
+    ("range-2args", "for i in range(1, 3):"), ("range-3args-up", "for i in range(0, 4, 2):"), ("range-3args-up-jump", "for i in range(0, 3, 2):"),
+    ("range-down-lands-on-stop", "for i in range(2, 0, -1):"), ("range-down-jumps-over-stop", "for i in range(3, 0, -2):"),
+    ("range-down-empty", "for i in range(2, 2, -1):"), ("range-down-runtime", "for i in range(x, x - 2, -1):"),
+    ("range-down-runtime-step", "for i in range(4, 0, y - 3):"), ("range-up-runtime", "for i in range(y, y + 2):"),
+    ("range-up-empty-runtime", "for i in range(x, x):"), ("range-down-2", "for i in range(4, 0, -2):"),
+]
+
+
+def _range_header_programs(gen, nmax):
+    out = []
+    for hk, hl in RANGE_HEADERS:
+        for n in range(1, nmax + 1):
+            for bk, bl in gen.blocks(n, True, True, False, 1):
+                out.append((bk | {"for-range", hk}, (hl, *_ind(bl))))
+    return out
+
+
 def programs(tier):
     if tier == "quick":
         gen, nmax, depth = Gen(tuple(ATOMS_CORE)), 3, 2
         extra = Gen(tuple(ATOMS_CORE + ATOMS_MORE))
-        seqs = []
+        seqs = _range_header_programs(gen, 2)
         for n in range(1, nmax + 1):
             seqs.extend(gen.blocks(n, False, False, False, depth))
         # the wider atom set, up to size 2
@@ -184,7 +204,7 @@ def programs(tier):
                     seqs.append(s)
         return seqs
     gen = Gen(tuple(ATOMS_CORE + ATOMS_MORE))
-    seqs = []
+    seqs = _range_header_programs(Gen(tuple(ATOMS_CORE)), 3)
     for n in range(1, 4):
         seqs.extend(gen.blocks(n, False, False, False, 2))
     core = Gen(tuple(ATOMS_CORE))
